@@ -18,7 +18,30 @@ def statFile (l : List Ent) (p : Path) : Option Ent :=
   let r := clean p
   if r = [47] ∨ r = [dot] then none else findE l r
 
-/-- filepath.Match(pattern, name) for names without separators -/
+/-- width in bytes of the first UTF-8 sequence of `s` as Go decodes it (an invalid byte has width 1) -/
+def firstWidth : List Nat → Nat
+  | [] => 0
+  | b :: rest =>
+    let cont (x : Nat) := 128 ≤ x ∧ x < 192
+    if b < 128 then 1
+    else if 194 ≤ b ∧ b < 224 then (match rest with | c1 :: _ => if cont c1 then 2 else 1 | [] => 1)
+    else if 224 ≤ b ∧ b < 240 then
+      (match rest with
+       | c1 :: c2 :: _ =>
+         let lo := if b = 224 then 160 else 128
+         let hi := if b = 237 then 159 else 191
+         if lo ≤ c1 ∧ c1 ≤ hi ∧ cont c2 then 3 else 1
+       | _ => 1)
+    else if 240 ≤ b ∧ b < 245 then
+      (match rest with
+       | c1 :: c2 :: c3 :: _ =>
+         let lo := if b = 240 then 144 else 128
+         let hi := if b = 244 then 143 else 191
+         if lo ≤ c1 ∧ c1 ≤ hi ∧ cont c2 ∧ cont c3 then 4 else 1
+       | _ => 1)
+    else 1
+
+/-- tokens of a filepath.Match pattern: literal BYTES, `?` and classes consume one rune, `*` any bytes but the separator -/
 def fnTokens : Nat → List Nat → List Tok → Option (List Tok)
   | 0, _, acc => some acc.reverse
   | _, [], acc => some acc.reverse
@@ -33,10 +56,28 @@ def fnTokens : Nat → List Nat → List Tok → Option (List Tok)
       | none => none
     else fnTokens fuel rest (Tok.lit ch :: acc)
 
+/-- match of the token list against the BYTES of the name -/
+def fnRun : Nat → List Tok → List Nat → Bool
+  | 0, _, _ => false
+  | _, [], s => s.isEmpty
+  | fuel+1, t :: ts, s =>
+    match t with
+    | .lit c => (match s with | x :: r => x = c && fnRun fuel ts r | [] => false)
+    | .anyNoSep | .cls _ _ =>
+      (match s with
+       | [] => false
+       | x :: _ =>
+         let w := firstWidth s
+         let rune := (runes (s.take w)).headD 65533
+         let okc := match t with | .cls n rs => clsMatch n rs rune | _ => true
+         x ≠ 47 && okc && fnRun fuel ts (s.drop w))
+    | .starNoSep =>
+      fnRun fuel ts s || (match s with | x :: r => x ≠ 47 && fnRun fuel (t :: ts) r | [] => false)
+    | _ => false
+
 def fnMatch (pat name : Path) : Bool :=
-  let rp := runes pat
-  match fnTokens (rp.length + 1) rp [] with
-  | some toks => let rn := runes name; reMatch ((rn.length + 2) * (toks.length + 2) * 4 + 16) toks rn
+  match fnTokens (pat.length + 1) pat [] with
+  | some toks => fnRun ((name.length + 2) * (toks.length + 2) * 4 + 16) toks name
   | none => false
 
 /-- containsWildcards -/
